@@ -818,6 +818,9 @@ impl SortableStrVec {
         Ok(())
     }
 
+    /// Maximum MSD radix recursion depth before falling back to comparison sort
+    const MAX_RADIX_DEPTH: usize = 256;
+
     /// Static helper for MSD radix sort to avoid borrow conflicts
     fn radix_sort_msd_helper(
         arena: &[u8],
@@ -830,8 +833,10 @@ impl SortableStrVec {
             return;
         }
 
-        // Use insertion sort for small subarrays (faster than radix for small data)
-        if indices.len() < 32 {
+        // Use comparison sort for small subarrays (faster than radix for small data) and
+        // below a fixed depth: one recursion level (with a 257-word histogram) per shared
+        // prefix byte would otherwise overflow the stack on long common prefixes
+        if indices.len() < 32 || depth >= Self::MAX_RADIX_DEPTH {
             indices.sort_unstable_by(|&a, &b| {
                 let entry_a = entries[a];
                 let entry_b = entries[b];
